@@ -10,6 +10,7 @@ WT=/tmp/wt/$P; OUT=$ROOTOUT/$P
 export GOFLAGS=-mod=mod GOPROXY=off GOSUMDB=off
 cd $WT || exit 9
 git checkout -q -- . ; git clean -fdq
+git checkout -q --detach $(git -C /repo rev-parse HEAD)   # hook commits may have been added since the worktree was made
 git apply $OUT/patch$N.diff || { echo "APPLY-FAILED"; exit 9; }
 go build ./... && go build -tags verif ./... || { echo "BUILD-FAILED"; git checkout -q -- .; exit 9; }
 SUITE=$(go test -vet=off -count=1 ./... 2>&1 | grep -v "no test files" | grep -v "^ok" | head -5)
